@@ -180,8 +180,10 @@ def finish(pid, tier, results, wall, verbose=True):
               f'{n - discharged} not discharged; solver {solver_s:.1f}s wall {wall:.1f}s')
         for k, e in errors:
             print(f'[{pid}] CHECKER-ERROR {k}: {e[:1500]}')
-        for k, e in undecided:
+        for k, e in undecided[:12]:
             print(f'[{pid}] UNDECIDED {k}: {e}')
+        if len(undecided) > 12:
+            print(f'[{pid}] ... and {len(undecided) - 12} more undecided obligations (see evidence)')
         for c in covers_bad:
             print(f'[{pid}] VACUITY cover unsatisfiable: {c}')
     for kf, ob in known_hits:
